@@ -5,6 +5,8 @@ import Babble.Props.C03
 import Babble.Props.C04
 import Babble.Props.C07
 import Babble.Props.C08
+import Babble.Props.C12
+import Babble.Props.C14
 import Babble.Props.C16
 import Babble.Props.C18
 import Babble.Props.C19
